@@ -24,7 +24,8 @@ RULE = ("sim-enum: operation in flight in {daemon start with global warm-up, "
         "periodic check respawning with warm-up, none} x shutdown trigger in "
         "{quit request, SIGTERM, SIGINT, SIGQUIT} x every loop step / timer "
         "jump of the operation.  sim-random: lifecycle histories with "
-        "stubborn workers, managed inet/unix sockets, then a trigger at a "
+        "stubborn workers, workers stopped / continued by signal requests, "
+        "managed inet/unix sockets, then a trigger at a "
         "random point (optionally a second one).  pidfile: contents from "
         "{empty, blanks, garbage, non-UTF-8 bytes, negative, 0, own pid, pid "
         "of a live helper process, pid of a reaped one, integers of every "
